@@ -653,7 +653,7 @@ func c15Flags(s string) (map[string]bool, bool) {
 	}
 	for _, f := range strings.Split(s, "+") {
 		switch f {
-		case "cert", "ticket", "resume", "tls", "gm":
+		case "cert", "ticket", "resume", "tls", "gm", "nist":
 			fl[f] = true
 		default:
 			return nil, false
@@ -706,6 +706,9 @@ func c15Configs(role string, fl map[string]bool, mode string) (ccfg, scfg *gmtls
 		ccfg = gmClientCfg(m)
 	} else {
 		ccfg = &gmtls.Config{RootCAs: std.gmPool, ServerName: "std.test", Time: tlsNow}
+	}
+	if fl["nist"] { // the client offers P-256 only, so that ECDHE runs over a NIST curve instead of X25519
+		ccfg.CurvePreferences = []gmtls.CurveID{gmtls.CurveP256}
 	}
 	if fl["cert"] {
 		scfg.ClientAuth = gmtls.RequireAndVerifyClientCert
@@ -1270,7 +1273,8 @@ var c15ConfigsOther = []c15Config{{"gmclient", "cert"}, {"gmclient", "ticket"},
 	{"tlsclient", "-"}, {"tlsclient", "cert"}, {"tlsclient", "ticket"}, {"tlsclient", "resume"},
 	{"tlsserver", "-"}, {"tlsserver", "cert"}, {"tlsserver", "resume"},
 	{"autoserver", "gm"}, {"autoserver", "tls"}, {"autoserver", "gm+cert"}, {"autoserver", "tls+cert"},
-	{"autoserver", "gm+resume"}, {"autoserver", "tls+resume"}}
+	{"autoserver", "gm+resume"}, {"autoserver", "tls+resume"},
+	{"tlsserver", "nist"}, {"autoserver", "tls+nist"}, {"tlsclient", "nist"}}
 
 // bytes every message of the type is at least long (length-field perturbations stay inside)
 var c15MinLen = map[string]int{"ch": 40, "sh": 40, "cert": 10, "skx": 8, "creq": 9, "shd": 4, "ckx": 8, "cv": 8, "nst": 10}
@@ -1520,6 +1524,11 @@ func genC15(r *rng, tier string, emit func(string)) {
 		}
 		for _, e := range sample(g.framing(), q/2) {
 			op(e)
+		}
+		for i := range g.flat { // every handshake message with an EMPTY body and a consistent header
+			if g.isHs(i) && g.flat[i] != "shd" {
+				op(fmt.Sprintf("trunc:%d:1000000:fix", i))
+			}
 		}
 		for _, e := range sample(g.retypes(), q) {
 			op(e)
